@@ -1753,8 +1753,13 @@ class LemmaEssPermutation(_EssLemma):
 
     def env(self, vc):
         s = vc._s
+        def last():
+            vc.assume(s.L[3])
+            m = s.m
+            vc.cut('the three sums over the chains are unchanged', z3.And(s.SB2(m) == s.SB(m), s.SS2(m) == s.SS(m), s.SA2(m) == s.SA(m)))
+            fcut(vc, 'rho_t is a function of the three sums', z3.And(s.rho2 == s.rho, s.vp2 == s.vp), [vc.pc[-1]])
         return dict(use_perm_grand_mean=lambda: vc.assume(s.L[0]), use_perm_between=lambda: vc.assume(s.L[1]),
-                    use_perm_within=lambda: vc.assume(s.L[2]), use_perm_autocov=lambda: vc.assume(s.L[3]))
+                    use_perm_within=lambda: vc.assume(s.L[2]), use_perm_autocov=last)
 
     def requires(self, s):
         return [s.n >= 2, s.m >= 1, ('pi is a permutation of the chains', s.PI)] + s.defs
